@@ -193,7 +193,7 @@ def gen_sbc_world(prop, root, w, tier):
             want = [None, "crystallite", "defect", "crystallite", "stack2"][int(rw.integers(5))]
         else:
             want = None
-        a, meta = gens.gen_messy(rw, maxn=maxn, want_kind=want)
+        a, meta = gens.gen_messy(rw, maxn=maxn, want_kind=want, coincident=(prop == "C01" and rw.random() < 0.06))
         sid = "s%d" % k
         spec["structures"][sid] = atoms_to_spec(a, meta)
         sids.append((sid, a))
